@@ -45,6 +45,7 @@ def items(root, file, name, copy_consts=True, assign_ops=False):
     L.append('    pub fn empty() -> (r: Self) ensures r.bits == 0 { %s { bits: 0 } }' % name)
     L.append('    pub fn is_empty(&self) -> (r: bool) ensures r == (self.bits == 0) { self.bits == 0 }')
     L.append('    pub fn contains(&self, o: Self) -> (r: bool) ensures r == (self.bits & o.bits == o.bits) { self.bits & o.bits == o.bits }')
+    L.append('    pub fn intersects(&self, o: Self) -> (r: bool) ensures r == (self.bits & o.bits != 0) { self.bits & o.bits != 0 }')
     L.append('    pub fn from_bits_truncate(b: %s) -> (r: Self) ensures r.bits == b & Self::all_bits() { %s { bits: b & (%s) } }' % (ty, name, allbits))
     L.append('    pub fn remove(&mut self, o: Self) ensures final(self).bits == old(self).bits & !o.bits { self.bits = self.bits & !o.bits; }')
     L.append('    pub fn insert(&mut self, o: Self) ensures final(self).bits == old(self).bits | o.bits { self.bits = self.bits | o.bits; }')
